@@ -448,7 +448,7 @@ def _pop_finish(c, outcome, args, old):
                 metas == ["_update_meta_safe", "_update_meta_after", "_update_meta_ready"], kind="post", detail=str(metas))
 
 
-@contract("stepup/core/scheduler.py::Scheduler.pop_next_job", props=["C12", "C10", "C04"])
+@contract("stepup/core/scheduler.py::Scheduler.pop_next_job", props=["C12", "C10", "C04", "C02", "C03"])
 class pop_next_job:
     args = dict(self=_scheduler)
     may_raise = {common.ConsistencyError: None}
